@@ -234,6 +234,24 @@ def make_and_run(root, prop, h, res, failed, logs):
                   "release": "not run natively (oracle stubs)", "why": ""}
         else:
             rr = _replay(root, h, vec, logs)
+            # Kani checks `assert!(cond)` BEFORE the temporaries of `cond` are dropped, the native
+            # `assert!` after: a temporary whose drop reads the model clock makes the native run ask
+            # for values the solver's trace (which ends at the failed check) does not contain.  Such
+            # values lie behind the failure in the engine's order, so any value will do: pad with
+            # zero-valued entries of the size the playback library asks for and run again.  Only a
+            # native run that FAILS counts, whatever the padding.
+            pads = []
+            while (not rr["reproduced"]) and len(pads) < 6 and "values-do-not-fit" in rr.get("why", ""):
+                m = re.search(r"Expected (\d+) bytes", rr["why"])
+                if "Not enough det vals" in rr["why"]:
+                    pads.append(1)
+                elif m and pads:
+                    pads[-1] = int(m.group(1))
+                else:
+                    break
+                vec = vec_literal(list(vals) + [("padding (after the failed check in the engine's order)", [0] * n) for n in pads])
+                body = body.split("    let concrete_vals")[0] + f"    let concrete_vals: Vec<Vec<u8>> = {vec};\n    kani::concrete_playback_run(concrete_vals, {h['name']});\n}}\n"
+                rr = _replay(root, h, vec, logs)
         last = rr
         last["path"] = path
         if rr["reproduced"] or (f, sl) == attempts[-1]:
